@@ -92,6 +92,12 @@ def run_task(ctx, spec, order=None, twice=False):
     with warnings.catch_warnings():
         warnings.simplefilter("ignore")
         ev = _task(spec["task"])(cps, cas, tags)
+        if twice and ctx.every(spec, 3):
+            evk = _task(spec["task"])(clip_predictions=tuple(cps), clip_annotations=tuple(cas), tags=tuple(tags))     # by keyword, as tuples
+            ctx.mon("calling_conventions")
+            d = _cmp(summarise(ev), summarise(evk))
+            if d:
+                ctx.violate("calling_convention", f"calling_convention:{spec['task']}:keywords_and_tuples", observed={"differs_at": d}, expected="same result", spec=spec)
         if twice:
             # the same objects evaluated a second time: state left behind by the first call must not matter
             ev2 = _task(spec["task"])(cps, cas, tags)
